@@ -36,18 +36,18 @@ def make(rng, name):
             body += ["    #[derive(Debug)] pub struct Error;",
                      "    impl std::fmt::Display for Error { fn fmt(&self, f: &mut std::fmt::Formatter<'_>) -> std::fmt::Result { write!(f, \"%s::Error\") } }" % m,
                      "    impl std::error::Error for Error {}",
-                     "    #[pavex::error_handler(id = \"EH\")]",
+                     "    #[pavex::error_handler(id = \"__MODU___%s_EH\")]" % m.upper(),
                      "    pub fn eh(e: &Error) -> Response { log(format!(\"eh __MOD__.%s\")); Response::internal_server_error() }" % m,
-                     "    #[pavex::%s(id = \"MK\")]" % life,
+                     "    #[pavex::%s(id = \"__MODU___%s_MK\")]" % (life, m.upper()),
                      "    pub fn %s() -> Result<%s, Error> { if should(\"__MOD__.%s\") { return Err(Error); } let id = fresh(); log(format!(\"ctor __MOD__.%s.%s {} : \", id)); Ok(%s { id }) }" % (fname, tname, m, m, fname, tname)]
         else:
-            body += ["    #[pavex::%s(id = \"MK\")]" % life,
+            body += ["    #[pavex::%s(id = \"__MODU___%s_MK\")]" % (life, m.upper()),
                      "    pub fn %s() -> %s { let id = fresh(); log(format!(\"ctor __MOD__.%s.%s {} : \", id)); %s { id } }" % (fname, tname, m, fname, tname)]
         body.append("}")
         items.append("\n".join(body))
-        regs.append(["raw", "{bp}.constructor(%s::MK);" % m])
+        regs.append(["raw", "{bp}.constructor(%s::%s_%s_MK);" % (m, U, m.upper())])
         if fallible:
-            regs.append(["raw", "{bp}.error_handler(%s::EH);" % m])
+            regs.append(["raw", "{bp}.error_handler(%s::%s_%s_EH);" % (m, U, m.upper())])
         params.append("p%d: &%s::%s" % (k, m, tname))
     items.append("#[pavex::get(path = \"/%s/names\", id = \"%s_NAMES\")]\npub fn names(%s) -> Response { log(format!(\"handler __MOD__.names\")); Response::ok() }" % (name, U, ", ".join(params)))
     spec["extra_items"] = items
